@@ -57,7 +57,16 @@ def gen_hub(cls, rng, count, prefix="h"):
         n = rng.randint(2, 4)
         keys = rng.sample(range(1, 60), n)
         steps = ["new %d %d" % (k, rng.randint(-5, 5)) for k in keys]
-        if ci % 2:
+        if ci % 4 == 3:
+            # one sink (and one source) with several hundred entries; removals near the FRONT of the long lists
+            n = 3
+            keys = rng.sample(range(1, 60), n)
+            steps = ["new %d %d" % (k, rng.randint(-5, 5)) for k in keys]
+            for j in range(rng.randint(300, 700)):
+                r = rng.random()
+                u, v = (0, 2) if r < 0.45 else (1, 2) if r < 0.9 else (2, rng.randrange(3))
+                steps.append("con %d %d %d" % (u, v, rng.randint(0, 50)))
+        elif ci % 2:
             # adjacency lists whose length sits exactly on, just below or just above a power of two (capacity boundaries)
             for (u, v) in [(0, 1), (1, 0), (0, 0)][:rng.randint(1, 3)]:
                 for j in range(rng.choice([7, 8, 9, 15, 16, 17, 31, 32, 33, 63, 64, 65, 127, 128, 129])):
